@@ -352,6 +352,24 @@ def main(argv=None) -> int:
     thorough_info: Dict[str, Any] = {}
     if tier == "thorough":
         thorough_info["cvc5_crosscheck"] = {"sampling": "one obligation instance in %s (deterministic by name and path)" % os.environ.get("PYVC_XCHECK_EVERY", "7"), **xstats}
+        # encoder cross-check: proved postconditions of natively runnable units on real runs
+        try:
+            from pyvc.falsify import crosscheck_unit
+
+            proved = {n for n, d in named.items() if d["status"] == "unsat"}
+            xc_out = []
+            for r in results:
+                if r.errors or r.undecided or any(o.status != "unsat" for o in r.obligations):
+                    continue
+                xr = crosscheck_unit(r.unit, proved, tries=int(os.environ.get("PYVC_CPYTHON_TRIES", "60")))
+                if xr.get("executed"):
+                    xc_out.append({k: v for k, v in xr.items() if k != "disagreements"})
+                for dg in xr.get("disagreements", []):
+                    errors.append(f"encoder cross-check: clause {dg['clause']} of {r.unit} was proved but is false on a real execution under CPython: {json.dumps(dg, default=str)[:400]}")
+            thorough_info["cpython_crosscheck"] = {"what": "proved postconditions of units that can be run natively (pure module-level functions; methods declared atomic whose object can be built from its class contract), evaluated on real executions of the real function with random inputs satisfying preconditions and class invariants; a disagreement is a checker error (exit 3)",
+                                                   "units": xc_out, "real_executions": sum(x["executed"] for x in xc_out)}
+        except Exception as e:  # pragma: no cover
+            errors.append(f"encoder cross-check crashed: {e!r}\n{traceback.format_exc()}")
         if not os.environ.get("PYVC_REPO") and not os.environ.get("PYVC_NO_SELFTEST"):
             st = mutant_selftest(prop)
             thorough_info["mutant_selftest"] = st
